@@ -8,6 +8,7 @@ Decided
   Y3  the -1 test on the channel list is made on an ndarray (a Python list compares as a whole)
   S2  iter_waveforms assigns a spike to the chunk with i0 <= s < i1 (via _find_chunks == 0), selects samples and channel rows with
       the SAME mask, extracts every spike of the chunk in order from the recording (not from the chunk) with its own channel row
+  Y4  the yielded block is converted to the declared (float) dtype BEFORE it is multiplied by the unit factor (int16 x integer factor wraps around otherwise)
   Y1  the bytes appended to the .npy file have the dtype declared in its header; A1 the header shape is (n_spikes, n, n_channels_loc);
       P1 every yielded chunk is appended in yield order times the unit factor, the writer is closed
   A1  get_spike_waveforms: stored row = position of the spike in the store; columns written = positions of the common channels in the
@@ -19,6 +20,7 @@ Not decided: the compressed reader's chunk iterator (C16), sortedness preconditi
 import ast
 
 from vlib import q, proto
+from vlib.pat import Pat, returned
 from vlib.proto import C, T, is_c, is_t, show, subterms
 from vlib.symwalk import SymInterp
 from vlib.sym import Lin, equal, NF
@@ -180,7 +182,12 @@ def s1_extract(ctx):
             bad.append(b)
     ctx.check(not bad, 'C03.Y2', fi, bad[0] if bad else 'sample arithmetic', 'the spike sample is converted with int() before it enters the window arithmetic',
               '`%s` subtracts from the raw spike sample: for an unsigned NumPy scalar within n//2 of the start this wraps around instead of going negative' % (unparse(bad[0]) if bad else ''))
-    cmp_ = [c for c in fi.nodes(ast.Compare) if const_value(c.comparators[0]) == -1 and isinstance(c.ops[0], ast.Eq)]
+    cmp_ = []
+    for c in fi.nodes(ast.Compare):
+        if len(c.ops) == 1 and isinstance(c.ops[0], ast.Eq) and (const_value(c.comparators[0]) == -1 or const_value(c.left) == -1):
+            if const_value(c.left) == -1:       # normalise `-1 == x` to `x == -1`
+                c = ast.copy_location(ast.Compare(left=c.comparators[0], ops=[ast.Eq()], comparators=[c.left]), c)
+            cmp_.append(c)
     okm = True
     node = None
     for c in cmp_:
@@ -195,45 +202,100 @@ def s1_extract(ctx):
               '`%s` compares the channel list as given: a Python list [.., -1] == -1 is the scalar False and no column is zeroed' % (unparse(node) if node is not None else 'no -1 test'))
 
 
+def tri(ctx, rule, fi, node, good, bad, ok_msg, bad_msg, und_msg):
+    if good:
+        ctx.holds(rule, fi, ok_msg, node)
+    elif bad:
+        ctx.violated(rule, fi, node, bad_msg)
+    else:
+        ctx.undecided(rule, fi, und_msg, node if not isinstance(node, str) else None)
+
+
 def s2_iter(ctx):
     repo = ctx.repo
     fi = repo.func(TR, 'iter_waveforms')
-    a = {unparse(x.targets[0]): x for x in fi.nodes(ast.Assign) if isinstance(x.targets[0], ast.Name)}
-    ind = a.get('ind')
-    t = unparse(ind.value).replace(' ', '') if ind is not None else ''
-    good = t == '_find_chunks([i0,i1],spike_samples)==0'
-    bad = t in ('_find_chunks([i0,i1],spike_samples)>=0', '_find_chunks([i0,i1],spike_samples)<=0', '_find_chunks([i0,i1],spike_samples)!=-1')
-    if good:
-        ctx.holds('C03.S2', fi, 'a spike belongs to the chunk with i0 <= s < i1 (exactly one of the tiling chunks)', ind)
-    elif bad or ind is None:
-        ctx.violated('C03.S2', fi, ind or 'chunk mask', 'chunk membership is `%s`: a spike on a chunk boundary is exported twice or not at all' % t)
+    tr_, smp_, chn_, nsw_ = fi.params[0], fi.params[1], fi.params[2], fi.params[3]
+    P = Pat(fi)
+    lp = [l for l in fi.nodes(ast.For) if isinstance(l.iter, ast.Call) and q.method_name(l.iter) == 'iter_chunks']
+    if not lp:
+        ctx.undecided('C03.S2', fi, 'the loop over the reader\'s chunk intervals was not found')
+        return
+    good_it = P.m('%s.iter_chunks(REST)' % tr_, lp[0].iter) and isinstance(lp[0].target, ast.Tuple) and len(lp[0].target.elts) == 2 and P.m('(V_i0, V_i1)', lp[0].target)
+    tri(ctx, 'C03.S2', fi, lp[0].iter, good_it, not P.m('%s.iter_chunks(REST)' % tr_, lp[0].iter), 'chunks are the tiling intervals of the reader',
+        'chunks are not taken from %s.iter_chunks()' % tr_, 'chunk loop target not recognised')
+    if not good_it:
+        return
+    ind = P.stmt('V_ind = _find_chunks([V_i0, V_i1], %s) == 0' % smp_, within=lp[0])
+    ind_bad = None
+    if ind is None:
+        for pat_ in ('V_ind = _find_chunks([V_i0, V_i1], %s) >= 0', 'V_ind = _find_chunks([V_i0, V_i1], %s) <= 0', 'V_ind = _find_chunks([V_i0, V_i1], %s) != -1',
+                     'V_ind = (V_i0 <= %s) & (%s <= V_i1)', 'V_ind = (V_i0 < %s) & (%s <= V_i1)', 'V_ind = (V_i0 < %s) & (%s < V_i1)'):
+            ind_bad = ind_bad or P.stmt(pat_ % ((smp_,) * pat_.count('%s')), within=lp[0])
+    ind_alt = P.stmt('V_ind = (V_i0 <= %s) & (%s < V_i1)' % (smp_, smp_), within=lp[0]) if ind is None and ind_bad is None else None
+    tri(ctx, 'C03.S2', fi, ind or ind_alt or ind_bad or 'chunk mask', ind is not None or ind_alt is not None, ind_bad is not None,
+        'a spike belongs to the chunk with i0 <= s < i1 (exactly one of the tiling chunks)',
+        'chunk membership is `%s`: a spike on a chunk boundary is exported twice or not at all' % (unparse(ind_bad.value) if ind_bad is not None else ''),
+        'chunk membership test not recognised')
+    if P.name('V_ind') is None:
+        return
+    ss = P.stmt('V_ss = %s[V_ind]' % smp_, within=lp[0])
+    sc = P.stmt('V_sc = %s[V_ind]' % chn_, within=lp[0]) or P.stmt('V_sc = %s[V_ind, :]' % chn_, within=lp[0])
+    sc_bad = None
+    if sc is None:
+        sc_bad = P.stmt('V_sc = %s' % chn_, within=lp[0]) or P.stmt('V_sc = %s[ANY]' % chn_, within=lp[0])
+    tri(ctx, 'C03.S2', fi, ss or 'masks', ss is not None and sc is not None, ss is not None and sc_bad is not None, 'samples and channel rows of a chunk are selected with the same mask',
+        'samples and channel rows of a chunk are not selected with the same mask (`%s`)' % (unparse(sc_bad) if sc_bad is not None else ''), 'selection of the samples / channel rows of a chunk not recognised')
+    inner = [l for l in ast.walk(lp[0]) if isinstance(l, ast.For) and l is not lp[0] and isinstance(l.iter, ast.Call) and dotted(l.iter.func) == 'enumerate' and l.iter.args and
+             isinstance(l.iter.args[0], ast.Name) and l.iter.args[0].id == P.name('V_ss')]
+    if not inner or P.name('V_sc') is None:
+        ctx.undecided('C03.S2', fi, 'per-spike extraction loop `for i, s in enumerate(<samples of the chunk>)` not recognised')
     else:
-        ctx.undecided('C03.S2', fi, 'chunk membership `%s` not recognised' % t, ind)
-    lp = [l for l in fi.nodes(ast.For) if 'iter_chunks' in unparse(l.iter)]
-    ctx.check(bool(lp) and unparse(lp[0].iter).replace(' ', '') == 'traces.iter_chunks(cache=cache)' and unparse(lp[0].target).replace(' ', '') in ('(i0,i1)', 'i0,i1'), 'C03.S2', fi, lp[0].iter if lp else 'chunks',
-              'chunks are the tiling intervals of the reader', 'chunks are not taken from traces.iter_chunks()')
-    ss, sc = a.get('ss'), a.get('sc')
-    ok = ss is not None and sc is not None and unparse(ss.value).replace(' ', '') == 'spike_samples[ind]' and unparse(sc.value).replace(' ', '') == 'spike_channels[ind]'
-    ctx.check(ok, 'C03.S2', fi, ss or 'masks', 'samples and channel rows of a chunk are selected with the same mask', 'samples and channel rows of a chunk are not selected with the same mask')
-    inner = [l for l in fi.nodes(ast.For) if isinstance(l.iter, ast.Call) and dotted(l.iter.func) == 'enumerate' and unparse(l.iter.args[0]) == 'ss']
-    okx = False
-    if inner:
         il = inner[0]
-        i, s_ = (unparse(x) for x in il.target.elts)
+        i_, s_ = (unparse(x) for x in il.target.elts) if isinstance(il.target, ast.Tuple) and len(il.target.elts) == 2 else ('?', '?')
         calls = [c for c in ast.walk(il) if isinstance(c, ast.Call) and dotted(c.func) == '_extract_waveform']
         st = [x for x in il.body if isinstance(x, ast.Assign) and isinstance(x.targets[0], ast.Subscript)]
-        chrow = [x for x in il.body if isinstance(x, ast.Assign) and unparse(x.targets[0]) == 'channel_ids']
-        okx = bool(calls) and unparse(calls[0].args[0]) == 'traces' and unparse(calls[0].args[1]) == s_ and bool(st) and unparse(st[0].targets[0]).replace(' ', '').startswith('waveforms[%s' % i) and \
-            bool(chrow) and unparse(chrow[0].value).replace(' ', '') == 'sc[%s,:]' % i and unparse(q.kwarg(calls[0], 'channel_ids')) == 'channel_ids' and \
-            unparse(q.kwarg(calls[0], 'n_samples_waveforms')) == 'n_samples_waveforms'
-    ctx.check(okx, 'C03.S2', fi, inner[0] if inner else 'extraction loop', 'spike i of the chunk: window from the whole recording at its sample on its own channel row, stored at position i',
-              'the per-spike extraction does not pair sample i, channel row i and output row i on the whole recording')
-    z = [c for c in fi.calls() if dotted(c.func) == 'np.zeros']
-    ctx.check(bool(z) and unparse(z[0].args[0]).replace(' ', '') == '(ns,n_samples_waveforms,n_channels_loc)' and unparse(q.kwarg(z[0], 'dtype')) == 'traces.dtype', 'C03.S2', fi, z[0] if z else 'chunk array',
-              'a chunk of waveforms has (spikes in chunk, n, channels per spike) entries of the recording dtype', 'the chunk array is not zeros((ns, n, n_channels_loc), traces.dtype)')
+        if not calls or not st:
+            ctx.undecided('C03.S2', fi, 'extraction call / store of the per-spike loop not recognised', il)
+        else:
+            c0 = calls[0]
+            ch_arg = q.kwarg(c0, 'channel_ids') if q.kwarg(c0, 'channel_ids') is not None else (c0.args[2] if len(c0.args) > 2 else None)
+            ch_x = ch_arg
+            if isinstance(ch_arg, ast.Name):
+                d_ = [x for x in il.body if isinstance(x, ast.Assign) and isinstance(x.targets[0], ast.Name) and x.targets[0].id == ch_arg.id]
+                ch_x = d_[0].value if d_ else ch_arg
+            sc_n = P.name('V_sc')
+            row_good = ch_x is not None and Pat().any(['%s[%s, :]' % (sc_n, i_), '%s[%s]' % (sc_n, i_), '%s[%s, ...]' % (sc_n, i_)], ch_x)
+            src_good = bool(c0.args) and Pat().m(tr_, c0.args[0])
+            smp_good = len(c0.args) > 1 and Pat().m(s_, c0.args[1])
+            dst_good = Pat().any(['V_w[%s, ...]' % i_, 'V_w[%s]' % i_, 'V_w[%s, :, :]' % i_], st[0].targets[0])
+            nsw_arg = q.kwarg(c0, 'n_samples_waveforms') if q.kwarg(c0, 'n_samples_waveforms') is not None else (c0.args[3] if len(c0.args) > 3 else None)
+            nsw_good = nsw_arg is not None and Pat().m(nsw_, fi.expand(nsw_arg))
+            allg = row_good and src_good and smp_good and dst_good and nsw_good
+            vocab = {tr_, s_, i_, sc_n, P.name('V_i0'), P.name('V_i1'), nsw_, 'np'} | ({ch_arg.id} if isinstance(ch_arg, ast.Name) else set()) | {unparse(st[0].targets[0].value)}
+            used = {n.id for x in (ch_x, c0, st[0].targets[0]) if x is not None for n in ast.walk(x) if isinstance(n, ast.Name)} - {'_extract_waveform'}
+            tri(ctx, 'C03.S2', fi, il, allg, not allg and used <= vocab,
+                'spike i of the chunk: window from the whole recording at its sample on its own channel row, stored at position i',
+                'the per-spike extraction does not pair sample i, channel row i and output row i on the whole recording (`%s = %s`, channel row `%s`)' %
+                (unparse(st[0].targets[0]), unparse(c0)[:80], unparse(ch_x) if ch_x is not None else '?'), 'per-spike extraction not in a recognised form')
+    z = [c for c in ast.walk(lp[0]) if isinstance(c, ast.Call) and dotted(c.func) == 'np.zeros']
+    if not z:
+        ctx.undecided('C03.S2', fi, 'allocation of the block of a chunk not recognised')
+    else:
+        shp = fi.expand(z[0].args[0]) if z[0].args else None
+        dt = q.kwarg(z[0], 'dtype')
+        g = isinstance(shp, ast.Tuple) and len(shp.elts) == 3 and Pat().any(['len(%s[%s])' % (smp_, P.name('V_ind')), 'len(%s)' % (P.name('V_ss') or '?')], shp.elts[0]) and \
+            Pat().m(nsw_, shp.elts[1]) and Pat().any(['%s.shape[1]' % chn_], shp.elts[2]) and dt is not None and Pat().m('%s.dtype' % tr_, dt)
+        b_ = isinstance(shp, ast.Tuple) and len(shp.elts) == 3 and not g and (dt is None or not Pat().m('%s.dtype' % tr_, dt) or Pat().m(nsw_, shp.elts[2]))
+        tri(ctx, 'C03.S2', fi, z[0], g, b_, 'a chunk of waveforms has (spikes in chunk, n, channels per spike) entries of the recording dtype',
+            'the chunk array is `%s`, not zeros((spikes in chunk, n, channels per spike), dtype of the recording)' % unparse(z[0])[:100], 'chunk array not in a recognised form')
     ys = fi.yields()
-    ctx.check(len(ys) == 1 and unparse(ys[0].value) == 'waveforms' and any(isinstance(x, ast.Continue) for x in ast.walk(lp[0])) if lp else False, 'C03.S2', fi, ys[0] if ys else 'yield',
-              'one block per non-empty chunk, in chunk order', 'blocks are not yielded once per non-empty chunk')
+    wname = None
+    for x in ast.walk(lp[0]):
+        if isinstance(x, ast.Assign) and isinstance(x.value, ast.Call) and dotted(x.value.func) == 'np.zeros' and isinstance(x.targets[0], ast.Name):
+            wname = x.targets[0].id
+    g = len(ys) == 1 and q.contains(lp[0], ys[0]) and isinstance(ys[0].value, ast.Name) and ys[0].value.id == wname
+    b_ = len(ys) == 0 or (len(ys) == 1 and not q.contains(lp[0], ys[0]))
+    tri(ctx, 'C03.S2', fi, ys[0] if ys else 'yield', g, b_, 'one block per non-empty chunk, in chunk order', 'blocks are not yielded once per chunk inside the chunk loop', 'yield structure not recognised')
 
 
 def y1_writer(ctx):
@@ -243,39 +305,93 @@ def y1_writer(ctx):
     if not all((init, app, close)):
         raise AnchorMissing('NpyWriter methods')
     ex = repo.func(TR, 'export_waveforms')
-    ai = {unparse(x.targets[0]): unparse(x.value).replace(' ', '') for x in init.nodes(ast.Assign)}
-    ctx.check(ai.get('self.dtype') in ('np.dtype(dtype)', 'dtype') and ai.get('header') == '_npy_header(self.shape,self.dtype)' and ai.get('self.shape') == 'shape', 'C03.Y1', init, 'header',
-              'the header declares the shape and dtype given to the writer', 'the header is not written for (self.shape, self.dtype)')
+    PI = Pat(init)
+    shape_p, dtype_p = init.params[2], init.params[3]
+    g_dt = PI.stmt('self.dtype = np.dtype(%s)' % dtype_p) or PI.stmt('self.dtype = %s' % dtype_p)
+    g_sh = PI.stmt('self.shape = %s' % shape_p) or PI.stmt('self.shape = tuple(%s)' % shape_p)
+    hdr = PI.expr('_npy_header(self.shape, self.dtype)') or PI.expr('_npy_header(%s, self.dtype)' % shape_p) or PI.expr('_npy_header(self.shape, self.dtype, REST)')
+    hdr_any = [c for c in init.calls() if dotted(c.func) == '_npy_header']
+    tri(ctx, 'C03.Y1', init, hdr or (hdr_any[0] if hdr_any else 'header'), g_dt is not None and g_sh is not None and hdr is not None, bool(hdr_any) and hdr is None,
+        'the header declares the shape and dtype given to the writer', 'the header is written for `%s`, not for (self.shape, self.dtype)' % (unparse(hdr_any[0]) if hdr_any else ''),
+        'construction of the .npy header not recognised')
     wr = [c for c in app.calls() if q.method_name(c) == 'write']
     cast = False
     if wr and wr[0].args:
-        t = unparse(wr[0].args[0]).replace(' ', '')
-        cast = 'dtype=self.dtype' in t or '.astype(self.dtype' in t or ',self.dtype)' in t
-    cast_ex = any('astype(dtype' in unparse(c).replace(' ', '') or 'dtype=dtype' in unparse(c).replace(' ', '') for c in ex.calls() if q.method_name(c) == 'append')
-    ctx.check(cast or cast_ex, 'C03.Y1', app, wr[0] if wr else 'append', 'the bytes appended are those of the chunk in the dtype declared in the header',
-              '`%s` writes the chunk in whatever dtype it has: export_waveforms declares float64 but int16 x int / float32 x float chunks keep their dtype, so the file holds fewer bytes than declared and cannot be loaded' %
-              (unparse(wr[0]) if wr else 'append'))
-    shp = [x for x in ex.nodes(ast.Assign) if unparse(x.targets[0]) == 'shape']
-    ctx.check(bool(shp) and unparse(shp[0].value).replace(' ', '') == '(n_spikes,n_samples_waveforms,n_channels_loc)', 'C03.A1', ex, shp[0] if shp else 'shape', 'declared shape = (n_spikes, n, channels per spike)',
-              'the declared shape is `%s`' % (unparse(shp[0].value) if shp else '?'))
-    ae = {unparse(x.targets[0]): unparse(x.value).replace(' ', '') for x in ex.nodes(ast.Assign)}
-    ctx.check(ae.get('n_spikes') == 'len(spike_samples)' and ae.get('n_channels_loc') == 'spike_channels.shape[1]', 'C03.A1', ex, 'sizes', 'n_spikes and channels per spike come from the inputs',
-              'n_spikes / n_channels_loc are not len(spike_samples) / spike_channels.shape[1]')
+        wx = app.expand(wr[0].args[0])
+        cast = any(Pat().any(['ANY.astype(self.dtype, REST)', 'ANY.astype(self.dtype)', 'np.ascontiguousarray(ANY, dtype=self.dtype)', 'np.asarray(ANY, dtype=self.dtype)', 'np.array(ANY, dtype=self.dtype)',
+                              'np.asarray(ANY, self.dtype)', 'np.array(ANY, REST, dtype=self.dtype)'], n) for n in ast.walk(wx) if isinstance(n, ast.Call))
+    cast_ex = any(any(Pat().any(['ANY.astype(dtype)', 'np.asarray(ANY, dtype=dtype)'], n) for n in ast.walk(c) if isinstance(n, ast.Call)) and
+                  not any(isinstance(b, ast.BinOp) and isinstance(b.op, ast.Mult) and any(isinstance(n, ast.Call) and q.method_name(n) == 'astype' for n in ast.walk(b)) and b is c.args[0] for b in [c.args[0]])
+                  for c in ex.calls() if q.method_name(c) == 'append' and c.args)
+    tri(ctx, 'C03.Y1', app, wr[0] if wr else 'append', cast or cast_ex, bool(wr) and not cast and not cast_ex, 'the bytes appended are those of the chunk in the dtype declared in the header',
+        '`%s` writes the chunk in whatever dtype it has: export_waveforms declares float64 but int16 x int / float32 x float chunks keep their dtype, so the file holds fewer bytes than '
+        'declared and cannot be loaded' % (unparse(wr[0]) if wr else 'append'), 'write of the appended chunk not recognised')
+    # ---- export_waveforms
+    PE = Pat(ex)
+    pth, tr_, smp_, chn_, nsw_ = ex.params[:5]
+    n_sp = PE.stmt('V_nspk = len(%s)' % smp_) or PE.stmt('V_nspk = %s.shape[0]' % smp_)
+    n_ch = PE.stmt('V_nch = %s.shape[1]' % chn_)
+    shp = PE.stmt('V_shape = (E_a, E_b, E_c)')
+    if shp is None:
+        ctx.undecided('C03.A1', ex, 'declared shape of the exported array not recognised')
+    else:
+        e = [ex.expand(x) for x in shp.value.elts]
+        is_n = lambda x: Pat().any(['len(%s)' % smp_, '%s.shape[0]' % smp_], x)
+        is_w = lambda x: Pat().m(nsw_, x)
+        is_c = lambda x: Pat().any(['%s.shape[1]' % chn_, 'np.asarray(%s, REST).shape[1]' % chn_], x)
+        g = is_n(e[0]) and is_w(e[1]) and is_c(e[2])
+        b_ = not g and all(is_n(x) or is_w(x) or is_c(x) for x in e)
+        tri(ctx, 'C03.A1', ex, shp, g, b_, 'declared shape = (n_spikes, n, channels per spike)', 'the declared shape is `%s`, not (n_spikes, n, channels per spike)' % unparse(shp.value),
+            'components of the declared shape not recognised')
     wctor = [c for c in ex.calls() if dotted(c.func) == 'NpyWriter']
-    ctx.check(bool(wctor) and [unparse(x) for x in wctor[0].args] == ['path', 'shape', 'dtype'], 'C03.A1', ex, wctor[0] if wctor else 'writer', 'the writer is opened on the given path with that shape', 'NpyWriter is not created with (path, shape, dtype)')
+    if not wctor:
+        ctx.undecided('C03.A1', ex, 'creation of the NpyWriter not found')
+    else:
+        a_ = wctor[0].args
+        g = len(a_) == 3 and Pat().m(pth, a_[0]) and isinstance(a_[1], ast.Name) and a_[1].id == PE.name('V_shape') and isinstance(a_[2], ast.Name)
+        b_ = len(a_) == 3 and not g and all(isinstance(x, ast.Name) for x in a_)
+        tri(ctx, 'C03.A1', ex, wctor[0], g, b_, 'the writer is opened on the given path with that shape', 'NpyWriter is created with `%s`, not (path, shape, dtype)' % unparse(wctor[0]),
+            'arguments of the writer not recognised')
+        dname = a_[2].id if len(a_) == 3 and isinstance(a_[2], ast.Name) else None
     lp = [l for l in ex.nodes(ast.For) if isinstance(l.iter, ast.Call) and dotted(l.iter.func) == 'iter_waveforms']
-    okp = False
-    if lp:
+    if not lp:
+        ctx.undecided('C03.P1', ex, 'the loop over iter_waveforms(...) was not found')
+    else:
         c = lp[0].iter
-        okp = [unparse(x) for x in c.args[:3]] == ['traces', 'spike_samples', 'spike_channels'] and unparse(q.kwarg(c, 'n_samples_waveforms')) == 'n_samples_waveforms'
-        ap = [x for x in ast.walk(lp[0]) if isinstance(x, ast.Call) and q.method_name(x) == 'append']
+        args_ok = len(c.args) >= 3 and Pat().m(tr_, c.args[0]) and Pat().m(smp_, c.args[1]) and Pat().m(chn_, c.args[2]) and q.kwarg(c, 'n_samples_waveforms') is not None and \
+            Pat().m(nsw_, q.kwarg(c, 'n_samples_waveforms'))
+        ap = [x for x in ast.walk(lp[0]) if isinstance(x, ast.Call) and q.method_name(x) == 'append' and x.args]
         tgt = unparse(lp[0].target)
-        okp = okp and bool(ap) and unparse(ap[0].args[0]).replace(' ', '') in ('%s*sample2unit' % tgt, 'sample2unit*%s' % tgt, '(%s*sample2unit).astype(dtype)' % tgt)
-    ctx.check(okp, 'C03.P1', ex, lp[0] if lp else 'export loop', 'every yielded block is appended in yield order, multiplied by the unit factor', 'yielded blocks are not appended as block * sample2unit in order')
-    cl = [c for c in ex.calls() if q.method_name(c) == 'close']
-    ctx.check(bool(cl) and bool(lp) and cl[0].lineno > lp[0].lineno, 'C03.P1', ex, cl[0] if cl else 'close', 'the writer is closed after the last block', 'the writer is not closed after the loop')
-    chk = [x for x in ex.nodes(ast.Assert) if 'size_written' in unparse(x.test)]
-    ctx.check(bool(chk), 'C03.P1', ex, chk[0] if chk else 'size check', 'the number of values written is checked against the declared shape', 'the written size is not checked against the declared shape')
+        f2u = ex.params[6] if len(ex.params) > 6 else 'sample2unit'
+        if not ap:
+            ctx.violated('C03.P1', ex, lp[0], 'the yielded blocks are never appended to the writer')
+        else:
+            v = ap[0].args[0]
+            core = v
+            while isinstance(core, ast.Call) and q.method_name(core) == 'astype':
+                core = core.func.value
+            mult = isinstance(core, ast.BinOp) and isinstance(core.op, ast.Mult) and f2u in q.names_in(core) and tgt in q.names_in(core)
+            plain = tgt in q.names_in(v) and f2u not in q.names_in(v)
+            tri(ctx, 'C03.P1', ex, ap[0], args_ok and mult, plain or (not args_ok and len(c.args) >= 3), 'every yielded block is appended in yield order, multiplied by the unit factor',
+                'yielded blocks are appended as `%s` (iterating `%s`): not block x unit factor of the given recording / spikes / channels' % (unparse(v), unparse(c)[:70]),
+                'appended value not recognised')
+            # Y4: the product is formed in the declared dtype, not in the (integer) sample dtype
+            if mult:
+                block = [o for o in (core.left, core.right) if tgt in q.names_in(o)][0]
+                conv = any(isinstance(n, ast.Call) and (q.method_name(n) == 'astype' or dotted(n.func) in ('np.asarray', 'np.array', 'np.float64', 'np.asfarray', 'float')) for n in ast.walk(block))
+                fconv = any(isinstance(n, ast.Call) and dotted(n.func) in ('float', 'np.float64') for o in (core.left, core.right) if f2u in q.names_in(o) for n in ast.walk(o))
+                raw = isinstance(block, ast.Name)
+                tri(ctx, 'C03.Y4', ex, ap[0], conv or fconv, raw and not fconv, 'the block is converted to the declared dtype before it is multiplied by the unit factor',
+                    '`%s` multiplies in the sample dtype of the recording: int16 samples times an integer unit factor wrap around before the cast to the declared float type' % unparse(core),
+                    'dtype in which the unit factor is applied not recognised')
+        cl = [c_ for c_ in ex.calls() if q.method_name(c_) == 'close']
+        tri(ctx, 'C03.P1', ex, cl[0] if cl else 'close', bool(cl) and cl[0].lineno > lp[0].end_lineno, not cl, 'the writer is closed after the last block', 'the writer is never closed (the file is left without its last blocks flushed)',
+            'position of writer.close() not recognised')
+    chk = [x for x in ex.nodes(ast.Assert) if any(isinstance(n, ast.Call) and dotted(n.func) in ('prod', 'np.prod') for n in ast.walk(x.test))]
+    if chk:
+        ctx.holds('C03.P1', ex, 'the number of values written is checked against the declared shape', chk[0])
+    else:
+        ctx.undecided('C03.P1', ex, 'no assertion comparing the written size with the declared shape was recognised')
 
 
 def a1_store(ctx):
@@ -287,67 +403,170 @@ def a1_store(ctx):
     res = S.result(fi, {'spike_ids': Arr((ReqS,), Ix(Spike)), 'channel_ids': Arr((ReqC,), Ix(Chan)), 'spike_waveforms': store, 'n_samples_waveforms': SizeOf(Samp)})
     for r in S.reports:
         ctx.violated('C03.A1', r.fi, r.node, '[get_spike_waveforms] %s' % r.msg)
-    ctx.check(isinstance(res, Arr) and res.axes == (ReqS, Samp, ReqC) and not S.reports, 'C03.A1', fi, 'store lookup axes', 'store lookup returns (requested spikes, samples, requested channels)',
-              'store lookup returns %s' % res)
-    a = {unparse(x.targets[0]): unparse(x.value).replace(' ', '') for x in fi.nodes(ast.Assign) if isinstance(x.targets[0], ast.Name)}
-    ok = a.get('spike_ids_rel') == '_index_of(spike_ids,spike_waveforms.spike_ids)' and a.get('ind') == 'spike_waveforms.spike_channels[sid,:]' and \
-        a.get('channel_common') in ('np.intersect1d(channel_ids,ind)', 'np.intersect1d(ind,channel_ids)') and a.get('cols0') == '_index_of(channel_common,channel_ids)' and a.get('cols1') == '_index_of(channel_common,ind)'
-    ctx.check(ok, 'C03.A1', fi, 'index vectors', 'row = position of the spike in the store; cols0 / cols1 = positions of the common channels in the request / in the stored row',
-              'the store lookup does not compute (row in store, positions in request, positions in stored row)')
-    st = [x for x in fi.nodes(ast.Assign) if isinstance(x.targets[0], ast.Subscript) and unparse(x.targets[0].value) == 'out']
-    oks = bool(st) and unparse(st[0].targets[0]).replace(' ', '') == 'out[i,:,cols0]' and unparse(st[0].value).replace(' ', '') == 'spike_waveforms.waveforms[sid,:,cols1]'
-    ctx.check(oks, 'C03.A1', fi, st[0] if st else 'copy', 'out[i, :, positions in request] = stored[row, :, positions in stored row]', 'the copy is `%s = %s`' % ((unparse(st[0].targets[0]), unparse(st[0].value)) if st else ('?', '?')))
-    lp = fi.nodes(ast.For)
-    ctx.check(bool(lp) and unparse(lp[0].iter).replace(' ', '') == 'enumerate(spike_ids_rel)' and unparse(lp[0].target).replace(' ', '') in ('(i,sid)', 'i,sid'), 'C03.A1', fi, lp[0].iter if lp else 'loop',
-              'requested spike i reads stored row sid, in request order', 'the loop does not pair request position i with stored row sid')
-    mem = [x for x in fi.nodes(ast.Assert) if 'np.isin(spike_ids, spike_waveforms.spike_ids)' in unparse(x.test)]
-    ctx.check(bool(mem), 'C03.A1', fi, mem[0] if mem else 'membership', 'spikes absent from the store are refused (the caller falls back to the raw data)', 'spikes absent from the store are not refused')
+    if isinstance(res, Arr):
+        ctx.check(res.axes == (ReqS, Samp, ReqC) and not S.reports, 'C03.A1', fi, 'store lookup axes', 'store lookup returns (requested spikes, samples, requested channels)', 'store lookup returns %s' % res)
+    else:
+        ctx.undecided('C03.A1', fi, 'store lookup result not typed (%s)' % res)
+    sid_p, ch_p, sw_p = fi.params[0], fi.params[1], fi.params[2]
+    P = Pat(fi)
+    rel = P.stmt('V_rel = _index_of(%s, %s.spike_ids)' % (sid_p, sw_p))
+    lp = [l for l in fi.nodes(ast.For) if isinstance(l.iter, ast.Call) and dotted(l.iter.func) == 'enumerate']
+    g_lp = rel is not None and bool(lp) and P.m('enumerate(V_rel)', lp[0].iter) and P.m('(V_i, V_sid)', lp[0].target)
+    b_lp = bool(lp) and not g_lp and (P.m('enumerate(%s)' % sid_p, lp[0].iter) or (rel is not None and P.m('(V_sid, V_i)', lp[0].target)))
+    tri(ctx, 'C03.A1', fi, lp[0].iter if lp else 'loop', g_lp, b_lp, 'requested spike i reads stored row sid, in request order',
+        'the loop iterates `%s`: it does not pair request position i with the position of that spike in the store' % (unparse(lp[0].iter) if lp else ''), 'lookup loop not recognised')
+    if g_lp:
+        row = P.stmt('V_row = %s.spike_channels[V_sid, :]' % sw_p, within=lp[0]) or P.stmt('V_row = %s.spike_channels[V_sid]' % sw_p, within=lp[0])
+        row_bad = P.stmt('V_row = %s.spike_channels[ANY, :]' % sw_p, within=lp[0]) if row is None else None
+        com = P.stmt('V_com = np.intersect1d(%s, V_row)' % ch_p, within=lp[0]) if row is not None else None
+        c0 = P.stmt('V_c0 = _index_of(V_com, %s)' % ch_p, within=lp[0]) if com is not None else None
+        c1 = P.stmt('V_c1 = _index_of(V_com, V_row)', within=lp[0]) if c0 is not None else None
+        swapped = None
+        if row is not None and com is not None and (c0 is None or c1 is None):
+            PX = Pat(fi, P.b)
+            swapped = PX.stmt('V_c0 = _index_of(V_com, V_row)', within=lp[0]) and PX.stmt('V_c1 = _index_of(V_com, %s)' % ch_p, within=lp[0])
+        # the position tables are recomputed for EVERY spike: a table kept from a previous iteration (memoised on the set of common channels) is wrong as soon as
+        # two stored rows list the same channels in a different order
+        memo = None
+        if row is not None:
+            for a in ast.walk(lp[0]):
+                if isinstance(a, ast.Assign) and isinstance(a.value, ast.Call) and dotted(a.value.func) == '_index_of' and len(a.value.args) == 2 and \
+                        isinstance(a.value.args[1], ast.Name) and a.value.args[1].id == P.name('V_row'):
+                    for ifn, br_ in q.enclosing_ifs(fi, a):
+                        if not q.contains(lp[0], ifn):
+                            continue
+                        assigned = {n.id for x in ast.walk(ifn) for n in ([x.targets[0]] if isinstance(x, ast.Assign) and isinstance(x.targets[0], ast.Name) else [])}
+                        if assigned & set(q.names_in(ifn.test)):
+                            memo = ifn
+        if memo is not None:
+            ctx.violated('C03.A1', fi, memo.test, 'the positions of the common channels in the stored row are recomputed only when `%s`: they are carried over from a previous spike, whose stored '
+                         'channel row may list the same channels in another order' % unparse(memo.test))
+        tri(ctx, 'C03.A1', fi, c0 or row or row_bad or 'index vectors', c1 is not None, row_bad is not None or bool(swapped),
+            'row = position of the spike in the store; cols0 / cols1 = positions of the common channels in the request / in the stored row',
+            'the store lookup does not compute (row in store, positions in request, positions in stored row): %s' %
+            ('the stored channel row is `%s`' % unparse(row_bad.value) if row_bad is not None else 'the two position tables are computed against the wrong lists'), 'index vectors of the store lookup not recognised')
+        st = [x for x in ast.walk(lp[0]) if isinstance(x, ast.Assign) and isinstance(x.targets[0], ast.Subscript) and 'waveforms' in unparse(x.value)]
+        if c1 is not None and st:
+            g = P.m('V_out[V_i, :, V_c0]', st[0].targets[0]) and P.m('%s.waveforms[V_sid, :, V_c1]' % sw_p, st[0].value)
+            vocab = {P.name(k) for k in ('V_i', 'V_sid', 'V_c0', 'V_c1', 'V_out')} | {sw_p}
+            used = {n.id for n in ast.walk(st[0]) if isinstance(n, ast.Name)}
+            tri(ctx, 'C03.A1', fi, st[0], g, not g and used <= vocab, 'out[i, :, positions in request] = stored[row, :, positions in stored row]',
+                'the copy is `%s = %s`' % (unparse(st[0].targets[0]), unparse(st[0].value)), 'copy statement not recognised')
+        else:
+            ctx.undecided('C03.A1', fi, 'copy from the store into the output not recognised')
+    mem = [x for x in fi.nodes(ast.Assert) if any(Pat().any(['np.isin(%s, %s.spike_ids)' % (sid_p, sw_p), 'np.in1d(%s, %s.spike_ids)' % (sid_p, sw_p)], n) for n in ast.walk(x.test))]
+    if mem:
+        ctx.holds('C03.A1', fi, 'spikes absent from the store are refused (the caller falls back to the raw data)', mem[0])
+    else:
+        ctx.undecided('C03.A1', fi, 'the refusal of spikes absent from the store was not recognised')
 
 
 def a2_routes(ctx):
     repo = ctx.repo
     cls = repo.cls(M, 'TemplateModel')
     sw = repo.lookup_method(cls, 'save_spikes_subset_waveforms')
+    P = Pat(sw)
     ex = [c for c in sw.calls() if dotted(c.func) == 'export_waveforms']
-    a = {unparse(x.targets[0]): unparse(x.value).replace(' ', '') for x in sw.nodes(ast.Assign) if isinstance(x.targets[0], ast.Name)}
-    ok = bool(ex) and [unparse(x).replace(' ', '') for x in ex[0].args] == ['path', 'self.traces', 'self.spike_samples[spike_ids]', 'spike_channels'] and \
-        a.get('spike_channels') == 'best_channels[self.spike_templates[spike_ids],:]'
-    ctx.check(ok, 'C03.A2', sw, ex[0] if ex else 'export', 'the export gets the samples and the channel rows of the SAME spikes; a spike\'s channels are those of its template',
-              'the subset export does not pass spike_samples[spike_ids] with best_channels[spike_templates[spike_ids]]')
-    okk = bool(ex) and unparse(q.kwarg(ex[0], 'n_samples_waveforms')) == 'self.n_samples_waveforms' and unparse(q.kwarg(ex[0], 'sample2unit')) == 'sample2unit'
-    ctx.check(okk, 'C03.A2', sw, ex[0] if ex else 'export', 'window length and unit factor are forwarded', 'n_samples_waveforms / sample2unit are not forwarded to the export')
-    sv = {unparse(c.args[0]): unparse(c.args[1]) for c in sw.calls() if dotted(c.func) == 'np.save' and len(c.args) == 2}
-    ctx.check(sv.get('path_spikes') == 'spike_ids' and sv.get('path_channels') == 'spike_channels', 'C03.A2', sw, 'store members', 'the store records the exported spike ids and their channel rows',
-              'the spike-id / channel files do not hold spike_ids / spike_channels (%s)' % sv)
-    S = Shape(repo, selfattrs=model_attrs(), sigs=COMMON_SIGS, inline_depth=1)
-    # best channels table: one row per template
-    bc = a.get('best_channels', '')
-    ctx.check('self._template_n_channels(t,nc)fortinrange(self.n_templates)' in bc, 'C03.A2', sw, 'best channels', 'the channel table has one row per template id 0..n_templates-1',
-              'the channel table is not built for every template id in order')
+    sel = P.stmt('V_ids = V_selector(REST)')
+    ids_stmt = None
+    for a in sw.nodes(ast.Assign):
+        if isinstance(a.value, ast.Call) and isinstance(a.value.func, ast.Name) and isinstance(a.targets[0], ast.Name):
+            d = sw.unique_def(a.value.func.id)
+            if isinstance(d, ast.Call) and dotted(d.func) == 'SpikeSelector':
+                ids_stmt = a
+    if not ex or ids_stmt is None:
+        ctx.undecided('C03.A2', sw, 'the subset export (spike selection + export_waveforms call) was not recognised')
+    else:
+        ids = ids_stmt.targets[0].id
+        PS = Pat(sw)
+        table = PS.stmt('V_best = np.vstack([self._template_n_channels(V_t, ANY) for V_t in range(self.n_templates)]).astype(ANY)') or \
+            PS.stmt('V_best = np.vstack([self._template_n_channels(V_t, ANY) for V_t in range(self.n_templates)])') or \
+            PS.stmt('V_best = np.array([self._template_n_channels(V_t, ANY) for V_t in range(self.n_templates)], REST)')
+        table_any = [a for a in sw.nodes(ast.Assign) if any(isinstance(n, ast.Call) and q.method_name(n) == '_template_n_channels' for n in ast.walk(a.value))]
+        tri(ctx, 'C03.A2', sw, table or (table_any[0] if table_any else 'best channels'), table is not None,
+            table is None and bool(table_any) and any(isinstance(n, ast.comprehension) and not Pat().m('range(self.n_templates)', n.iter) for n in ast.walk(table_any[0].value)),
+            'the channel table has one row per template id 0..n_templates-1', 'the channel table is not built for every template id in order (`%s`)' % (unparse(table_any[0].value)[:90] if table_any else ''),
+            'construction of the per-template channel table not recognised')
+        chs = PS.stmt('V_chs = V_best[self.spike_templates[%s], :]' % ids) or PS.stmt('V_chs = V_best[self.spike_templates[%s]]' % ids) if table is not None else None
+        chs_bad = None
+        if table is not None and chs is None:
+            chs_bad = PS.stmt('V_chs = V_best[self.spike_clusters[%s], :]' % ids) or PS.stmt('V_chs = V_best[E_other, :]') or PS.stmt('V_chs = V_best[E_other]')
+        a_ = ex[0].args
+        smp_good = len(a_) >= 4 and Pat().m('self.spike_samples[%s]' % ids, a_[2]) and Pat().m('self.traces', a_[1])
+        smp_bad = len(a_) >= 4 and not smp_good and ('spike_samples' in unparse(a_[2]) or 'spike_times' in unparse(a_[2]))
+        ch_good = chs is not None and len(a_) >= 4 and isinstance(a_[3], ast.Name) and a_[3].id == PS.name('V_chs')
+        tri(ctx, 'C03.A2', sw, ex[0], smp_good and ch_good, smp_bad or chs_bad is not None,
+            'the export gets the samples and the channel rows of the SAME spikes; a spike\'s channels are those of its template',
+            'the subset export does not pass spike_samples[spike_ids] with best_channels[spike_templates[spike_ids]] (samples `%s`, channel rows `%s`)' %
+            (unparse(a_[2]) if len(a_) > 2 else '?', unparse(chs_bad.value) if chs_bad is not None else (unparse(chs.value) if chs is not None else '?')), 'arguments of the subset export not recognised')
+        f2u = [p_ for p_ in sw.params if 'unit' in p_]
+        nk, uk = q.kwarg(ex[0], 'n_samples_waveforms'), q.kwarg(ex[0], 'sample2unit')
+        g = nk is not None and Pat().m('self.n_samples_waveforms', nk) and uk is not None and f2u and Pat().m(f2u[0], uk)
+        tri(ctx, 'C03.A2', sw, ex[0], bool(g), nk is None or uk is None, 'window length and unit factor are forwarded', 'n_samples_waveforms / sample2unit are not forwarded to the export',
+            'forwarding of the window length / unit factor not recognised')
+        sv = [c for c in sw.calls() if dotted(c.func) == 'np.save' and len(c.args) == 2]
+        pnames = {}
+        for a in sw.nodes(ast.Assign):
+            if isinstance(a.targets[0], ast.Name) and isinstance(a.value, ast.BinOp):
+                cst = [const_value(n) for n in ast.walk(a.value) if isinstance(n, ast.Constant) and isinstance(n.value, str)]
+                if cst:
+                    pnames[a.targets[0].id] = cst[0]
+        got = {pnames.get(unparse(c.args[0]), unparse(c.args[0])): unparse(c.args[1]) for c in sv}
+        g = got.get('_phy_spikes_subset.spikes.npy') == ids and got.get('_phy_spikes_subset.channels.npy') == (PS.name('V_chs') or '?')
+        b_ = not g and set(got) >= {'_phy_spikes_subset.spikes.npy', '_phy_spikes_subset.channels.npy'}
+        tri(ctx, 'C03.A2', sw, sv[0] if sv else 'store members', g, b_, 'the store records the exported spike ids and their channel rows',
+            'the spike-id / channel files do not hold the exported spike ids / their channel rows (%s)' % got, 'saves of the store members not recognised')
     gw = repo.lookup_method(cls, 'get_waveforms')
-    br = [i for i in gw.nodes(ast.If) if unparse(i.test).replace(' ', '') == 'self.spike_waveformsisnotNone']
-    okg = False
-    if br:
-        first = [c for c in ast.walk(br[0]) if isinstance(c, ast.Call) and dotted(c.func) == 'get_spike_waveforms']
-        raw = [c for c in ast.walk(gw.node) if isinstance(c, ast.Call) and dotted(c.func) == 'extract_waveforms']
-        okg = bool(first) and q.contains(br[0], first[0]) and len(raw) >= 1 and all([unparse(x) for x in c.args[:3]] == ['self.traces', 'spike_samples', 'channel_ids'] and
-                                                                                      unparse(q.kwarg(c, 'n_samples_waveforms')) == 'nsw' for c in raw)
-        okg = okg and [unparse(x) for x in first[0].args[:2]] == ['spike_ids', 'channel_ids'] and unparse(q.kwarg(first[0], 'spike_waveforms')) == 'self.spike_waveforms'
-    ctx.check(okg, 'C03.A2', gw, br[0] if br else 'get_waveforms', 'get_waveforms reads the store when there is one, otherwise the raw window on the same channels and window length',
-              'get_waveforms does not choose store / raw data on the same (spikes, channels, window length)')
-    ssd = [x for x in gw.nodes(ast.Assign) if unparse(x.targets[0]) == 'spike_samples']
-    ctx.check(bool(ssd) and all(unparse(x.value).replace(' ', '') == 'self.spike_samples[spike_ids]' for x in ssd), 'C03.A2', gw, ssd[0] if ssd else 'samples', 'raw windows are centred on spike_samples[spike_ids]',
-              'raw windows are not centred on self.spike_samples[spike_ids]')
+    PGW = Pat(gw)
+    sid_p, ch_p = gw.params[1], gw.params[2]
+    br = [i for i in gw.nodes(ast.If) if Pat().m('self.spike_waveforms is not None', i.test)]
+    first = [c for c in ast.walk(br[0]) if isinstance(c, ast.Call) and dotted(c.func) == 'get_spike_waveforms'] if br else []
+    raw = [c for c in ast.walk(gw.node) if isinstance(c, ast.Call) and dotted(c.func) == 'extract_waveforms']
+    if not br or not first or not raw:
+        ctx.undecided('C03.A2', gw, 'get_waveforms: the store / raw-data alternative was not recognised')
+    else:
+        def raw_ok(c):
+            smp = gw.expand(c.args[1]) if len(c.args) > 1 else None
+            nk = q.kwarg(c, 'n_samples_waveforms')
+            return len(c.args) >= 3 and Pat().m('self.traces', c.args[0]) and Pat().m(ch_p, c.args[2]) and nk is not None and Pat().m('self.n_samples_waveforms', gw.expand(nk)), smp
+        oks = [raw_ok(c) for c in raw]
+        nk1 = q.kwarg(first[0], 'n_samples_waveforms')
+        f_ok = len(first[0].args) >= 2 and Pat().m(sid_p, first[0].args[0]) and Pat().m(ch_p, first[0].args[1]) and q.kwarg(first[0], 'spike_waveforms') is not None and \
+            Pat().m('self.spike_waveforms', q.kwarg(first[0], 'spike_waveforms')) and nk1 is not None and Pat().m('self.n_samples_waveforms', gw.expand(nk1))
+        tri(ctx, 'C03.A2', gw, br[0], f_ok and all(o for o, _ in oks), not (f_ok and all(o for o, _ in oks)) and all(len(c.args) >= 3 for c in raw),
+            'get_waveforms reads the store when there is one, otherwise the raw window on the same channels and window length',
+            'get_waveforms does not choose store / raw data on the same (spikes, channels, window length)', 'arguments of the two routes not recognised')
+        # where the raw windows are centred: the sample vector handed to extract_waveforms (definitions may be repeated per branch)
+        smp_defs = []
+        for c in raw:
+            a1 = c.args[1] if len(c.args) > 1 else None
+            if isinstance(a1, ast.Name):
+                smp_defs += [x.value for x in gw.nodes(ast.Assign) if isinstance(x.targets[0], ast.Name) and x.targets[0].id == a1.id]
+            elif a1 is not None:
+                smp_defs.append(a1)
+        g = bool(smp_defs) and all(Pat().m('self.spike_samples[%s]' % sid_p, v) for v in smp_defs)
+        b_ = bool(smp_defs) and not g and any(Pat().any(['self.spike_times[%s]' % sid_p, 'self.spike_samples', 'self.spike_times', sid_p], v) for v in smp_defs)
+        tri(ctx, 'C03.A2', gw, smp_defs[0] if smp_defs else 'samples', g, b_, 'raw windows are centred on spike_samples[spike_ids]',
+            'raw windows are centred on `%s`, not on self.spike_samples[spike_ids]' % (unparse(smp_defs[0]) if smp_defs else ''), 'sample vector of the raw route not recognised')
     ew = repo.func(TR, 'extract_waveforms')
-    lp = ew.nodes(ast.For)
-    oke = False
-    if lp:
-        i, ts = (unparse(x) for x in lp[0].target.elts) if isinstance(lp[0].target, ast.Tuple) else ('', '')
+    lp = [l for l in ew.nodes(ast.For) if isinstance(l.iter, ast.Call) and dotted(l.iter.func) == 'enumerate']
+    if not lp or not isinstance(lp[0].target, ast.Tuple):
+        ctx.undecided('C03.A2', ew, 'extraction loop of extract_waveforms not recognised')
+    else:
+        i_, ts_ = (unparse(x) for x in lp[0].target.elts)
         c = [x for x in ast.walk(lp[0]) if isinstance(x, ast.Call) and dotted(x.func) == '_extract_waveform']
         st = [x for x in lp[0].body if isinstance(x, ast.Assign) and isinstance(x.targets[0], ast.Subscript)]
-        oke = unparse(lp[0].iter).replace(' ', '') == 'enumerate(%s)' % ew.params[1] and bool(c) and unparse(c[0].args[1]) == ts and bool(st) and unparse(st[0].targets[0]).replace(' ', '') == 'out[%s]' % i and \
-            unparse(q.kwarg(c[0], 'channel_ids')) == ew.params[2]
-    ctx.check(oke, 'C03.A2', ew, lp[0] if lp else 'extract_waveforms', 'extract_waveforms: row i = window of spike i on the requested channels (spike order kept)', 'extract_waveforms does not fill row i with the window of spike i')
+        if not c or not st:
+            ctx.undecided('C03.A2', ew, 'extraction call / store of extract_waveforms not recognised')
+        else:
+            chk_ = q.kwarg(c[0], 'channel_ids') if q.kwarg(c[0], 'channel_ids') is not None else (c[0].args[2] if len(c[0].args) > 2 else None)
+            g = Pat().m('enumerate(%s)' % ew.params[1], lp[0].iter) and len(c[0].args) > 1 and Pat().m(ts_, c[0].args[1]) and Pat().m(ew.params[0], c[0].args[0]) and \
+                Pat().any(['V_out[%s]' % i_, 'V_out[%s, ...]' % i_, 'V_out[%s, :, :]' % i_], st[0].targets[0]) and chk_ is not None and Pat().m(ew.params[2], chk_)
+            used = {n.id for n in ast.walk(st[0].targets[0]) if isinstance(n, ast.Name)} | {n.id for n in ast.walk(c[0]) if isinstance(n, ast.Name)}
+            vocab = {i_, ts_, unparse(st[0].targets[0].value), '_extract_waveform', 'np'} | set(ew.params) | {n for n in ('ns', 'nsw', 'nc')} | \
+                {a.targets[0].id for a in ew.nodes(ast.Assign) if isinstance(a.targets[0], ast.Name)}
+            tri(ctx, 'C03.A2', ew, lp[0], g, not g and used <= vocab, 'extract_waveforms: row i = window of spike i on the requested channels (spike order kept)',
+                'extract_waveforms does not fill row i with the window of spike i (`%s = %s`)' % (unparse(st[0].targets[0]), unparse(c[0])[:70]), 'extraction loop not in a recognised form')
 
 
 def run(ctx):
